@@ -20,7 +20,7 @@ MANIFEST = {
 
 BOUNDS = {
     'quick': {'sparse-codes': [(3, 3)], 'identity': [(1, 3), (2, 3), (3, 3), (4, 2), (4, 3)], 'symmetry': [(3, 2), (3, 3)], 'corollaries': [(3, 3), (4, 2)]},
-    'thorough': {'sparse-codes': [(3, 3), (4, 3)], 'identity': [(1, 4), (2, 4), (3, 4), (4, 4), (5, 3), (6, 2)], 'symmetry': [(3, 3), (4, 2)], 'corollaries': [(4, 3), (5, 2)]},
+    'thorough': {'sparse-codes': [(3, 3), (4, 3)], 'identity': [(1, 4), (2, 4), (3, 4), (4, 4), (5, 3), (6, 2), (7, 2), (6, 3), (8, 2), (5, 4)], 'symmetry': [(3, 3), (4, 2)], 'corollaries': [(4, 3), (5, 2)]},
 }
 
 INFO = {
